@@ -433,11 +433,12 @@ def __AdaptiveTimeQuadratureStressTensor(
         nodes, weights = __clenshaw_curtis(nPts)
         S = sum(
             (
-                w * material.Compute_dWde(at(s, activeElements))
+                # evaluated on the full block: the law may carry (Ne, nPg) fields (fibres)
+                w * material.Compute_dWde(at(s, slice(None)))
                 for s, w in zip(nodes, weights)
             ),
             0.0,
-        )
+        )[activeElements]
         defect = S @ dE_vec[activeElements] - dW[activeElements]
         next_nPts = 3 if nPts == 1 else 2 * nPts - 1  # next level in the chain
         # accept an element once its own energy defect is within tol (all of them at the last level)
@@ -451,12 +452,12 @@ def __AdaptiveTimeQuadratureStressTensor(
             # their tangent only: Σ_k (w_k s_k / coefK) d2Wde, s=0 drops out (∂e/∂u = s B)
             d2Wde_quad[acceptedElems] = sum(
                 (
-                    (w * s / coefK) * material.Compute_d2Wde(at(s, acceptedElems))
+                    (w * s / coefK) * material.Compute_d2Wde(at(s, slice(None)))
                     for s, w in zip(nodes, weights)
                     if s
                 ),
                 0.0,
-            )
+            )[acceptedElems]
             nPts_e[acceptedElems] = nPts  # record each frozen element's accepted rule
             activeElements = activeElements[~isAccepted]
         nPts = next_nPts
